@@ -357,7 +357,10 @@ unsafe fn dispose_general_node<T: RcObject>(
     counter.set(count + 1);
     if count % 128 == 0 {
         if let Some(local) = guard.local.as_ref() {
-            local.repin_without_collect();
+            // `guard` is the one created by `dispose` and protects nothing at this point. Do not
+            // re-announce if the user has other guards alive on this thread (e.g. one that a
+            // destructor left in a thread-local).
+            local.repin_if_quiescent(1);
         }
     }
 
